@@ -50,34 +50,69 @@ def norm_fn(q):
     return q
 
 
-def _s(x):
+def _envp(p, env):
+    """rename the head of an access path: parameters -> $pN, locals -> $(initialiser) / $local<type>"""
+    if not env or not p: return p
+    h = p.split('.')
+    if h[0] in env: return '.'.join([env[h[0]]] + h[1:])
+    m = re.match(r'^(\w+)\(\)$', h[0])
+    return p
+
+
+def _s(x, env=None):
     """canonical string of an expression tree"""
     if not isinstance(x, dict): return '?'
     op = x.get('op')
-    if op in ('path', 'call'): return x.get('p') or '?'
-    if op == 'un': return '%s(%s)' % (x.get('o'), _s(x.get('e')))
+    if op in ('path', 'call'): return _envp(x.get('p') or '?', env)
+    if op == 'un': return '%s(%s)' % (x.get('o'), _s(x.get('e'), env))
     if op == 'bin':
-        l, r, o = _s(x.get('l')), _s(x.get('r')), x.get('o')
+        l, r, o = _s(x.get('l'), env), _s(x.get('r'), env), x.get('o')
         if o in ('==', '!=', '&&', '||', '&', '|', '+', '*') and r < l: l, r = r, l
         return '(%s %s %s)' % (l, o, r)
-    if op == 'cond': return '(%s ? %s : %s)' % (_s(x.get('c')), _s(x.get('t')), _s(x.get('f')))
+    if op == 'cond': return '(%s ? %s : %s)' % (_s(x.get('c'), env), _s(x.get('t'), env), _s(x.get('f'), env))
     return json.dumps(x, sort_keys=True)[:80]
 
 
-def canon(c):
+def atom_env(f):
+    """names that a behaviour-preserving edit may change freely: parameters become $p<index>, locals become
+    $(<their initialiser>) (or $local<type>), so renaming a local or a parameter does not change any atom"""
+    env = {}
+    for i, p in enumerate(f.get('params', [])):
+        if p.get('name'): env[p['name']] = '$p%d' % i
+    for b in f.get('blocks', []):
+        for e in b['elems']:
+            if e.get('k') != 'decl': continue
+            for v in e['vars']:
+                if v['var'] in env: continue
+                init = v.get('init')
+                if isinstance(init, dict):
+                    t = _s(init, env)
+                    env[v['var']] = '$(%s)' % t[:80]
+                else:
+                    env[v['var']] = '$local<%s>' % re.sub(r'\s+', '', (v.get('type') or '?'))[:40]
+    return env
+
+
+def canon(c, env=None):
     """-> (atom string, positive?)  positive=False when the condition is the negation of the atom"""
     pos = True
     while isinstance(c, dict) and c.get('op') == 'un' and c.get('o') == '!':
         c = c.get('e'); pos = not pos
+    if isinstance(c, dict) and c.get('op') == 'bin' and c.get('o') in ('==', '!='):
+        # x == nullptr / x == 0 / x == false  is  !x
+        for a, b in ((c.get('l'), c.get('r')), (c.get('r'), c.get('l'))):
+            if isinstance(b, dict) and b.get('op') == 'path' and b.get('p') in ('#null', '#0', '#false') and isinstance(a, dict):
+                at, ap = canon(a, env)
+                return at, (ap if c['o'] == '!=' else (not ap)) == pos
     if isinstance(c, dict) and c.get('op') == 'bin' and c.get('o') in ('==', '!=', '<', '<=', '>', '>='):
         o = c['o']; l, r = c.get('l'), c.get('r')
-        ls, rs = _s(l), _s(r)
+        ls, rs = _s(l, env), _s(r, env)
         if o in ('<', '<=', '>', '>=') and rs < ls:
             ls, rs = rs, ls; o = MIRROR[o]
         if o in ('==', '!=') and rs < ls: ls, rs = rs, ls
         if o in NEG: o = NEG[o]; pos = not pos
         return '(%s %s %s)' % (ls, o, rs), pos
-    return _s(c), pos
+    return _s(c, env), pos
 
 
 def effect(e):
@@ -109,6 +144,7 @@ def branches(f):
     """[(atom, T-only effects, F-only effects, line)] under the canonical polarity of the atom"""
     G = Graph(f)
     out = []
+    env = atom_env(f)
     for t, e in G.ev.items():
         if e.get('k') != 'term' or e.get('cond') is None: continue
         if (e.get('macro') or '').startswith(('UNIFEX_ASSERT', 'assert')): continue
@@ -117,7 +153,7 @@ def branches(f):
             if lab is True: st = m
             elif lab is False: sf = m
         if st is None or sf is None: continue
-        atom, pos = canon(e['cond'])
+        atom, pos = canon(e['cond'], env)
         if atom in ('#true', '#false', '?') or len(atom) > 300: continue
         rt = G.reach(st, blocked={t}); rf = G.reach(sf, blocked={t})
         et = {effect(G.ev[n]) for n in rt - rf} - {None}
@@ -171,6 +207,32 @@ def _check(run, F, prop, fp):
                               ('%s used to happen only when it is true and now happens only when it is false' % swapped_t) if swapped_t else '',
                               '; ' if swapped_t and swapped_f else '',
                               ('%s used to happen only when it is false and now happens only when it is true' % swapped_f) if swapped_f else ''))
+    # a frozen test that vanished from its function while a *new* test with the same one-sided effects appeared there:
+    # the condition was replaced (other predicate, other constant, other comparison)
+    by_fn = collections.defaultdict(list)
+    for r in mine:
+        if r.get('configs') and F.config not in r['configs']: continue
+        by_fn[(r['file'], r['fn'])].append(r)
+    cur_by_fn = collections.defaultdict(dict)
+    for (file, fn, atom), v in cur.items(): cur_by_fn[(file, fn)][atom] = v
+    for k, rs in by_fn.items():
+        have = cur_by_fn.get(k)
+        if not have: continue
+        frozen_atoms = {r['atom'] for r in rs}
+        new_atoms = {a: v for a, v in have.items() if a not in frozen_atoms}
+        if not new_atoms: continue
+        for r in rs:
+            if r['atom'] in have: continue
+            T, Fs = set(r['T']), set(r['F'])
+            if len(T) + len(Fs) < 1: continue
+            for a, (ct, cf, line) in sorted(new_atoms.items()):
+                same = (T == ct and Fs == cf)
+                flipped = (T == cf and Fs == ct)
+                if (same or flipped) and (T or Fs):
+                    run.violation(r['fn'], 'replaced:' + r['atom'][:100], '%s:%s' % (r['file'], line),
+                                  'the test `%s` in %s was replaced by `%s`, which now decides exactly the same effects (%s / %s): a different predicate, constant or comparison guards this step of the protocol' % (
+                                      r['atom'][:120], r['fn'].split('::')[-1], a[:120], sorted(T)[:4], sorted(Fs)[:4]))
+                    break
     if applicable and found < 0.6 * applicable:
         run.broke('only %d of %d frozen branch keys of %s exist in the tree: tables/polarity.json no longer describes it (re-freeze after review)' % (found, applicable, prop))
 
@@ -179,7 +241,7 @@ def _mk(prop, floor, fp):
     rid = 'R-POLARITY-' + prop
     @rule(rid, [prop], floor=floor)
     def r(run, F, prop=prop): _check(run, F, prop, fp)
-    r.__doc__ = 'for every two-way branch in the files anchored by %s whose sides have distinguishable effects (calls, member writes, constant returns, completions, throws), each effect happens on the same outcome of the same canonical test as frozen in tables/polarity.json: no condition is inverted, no ==/!= or then/else swapped, no negation dropped (moved, added, removed or renamed effects and reworded conditions are silent)' % prop
+    r.__doc__ = 'for every two-way branch in the files anchored by %s whose sides have distinguishable effects (calls, member writes, constant returns, completions, throws), each effect happens on the same outcome of the same canonical test as frozen in tables/polarity.json: no condition is inverted, no ==/!= or then/else swapped, no negation dropped, and no test is replaced by a different test deciding exactly the same effects (locals and parameters are renamed canonically, x==nullptr/0/false reads as !x; moved, added, removed or renamed effects are silent)' % prop
     from .. import core
     core.RULES[rid]['doc'] = r.__doc__
 
